@@ -34,11 +34,24 @@ def main():
             else:
                 os.kill(pid, signal.SIGINT)
 
+        sig_times = []
+
         def fire():
-            time.sleep(0.6)
+            # resting point: both workers are inside run() (robust against a loaded machine)
+            deadline = time.time() + 30
+            while time.time() < deadline:
+                try:
+                    if open(rtasks.LOG).read().count('s') >= 2:
+                        break
+                except OSError:
+                    pass
+                time.sleep(0.02)
+            time.sleep(0.2)
+            sig_times.append(time.time())
             ctrl_c()
             if mode == 'double':
                 time.sleep(0.25)
+                sig_times.append(time.time())
                 ctrl_c()
         threading.Thread(target=fire, daemon=True).start()
         t0 = time.time()
@@ -47,7 +60,8 @@ def main():
             rec['out'] = 'returned'
         except BaseException as e:
             rec['out'] = type(e).__name__
-        rec['elapsed'] = round(time.time() - t0, 2)
+        signal.signal(signal.SIGINT, signal.SIG_IGN)   # a late signal must not hit the harness itself
+        rec['elapsed'] = round(time.time() - (sig_times[0] if sig_times else t0), 2)
         rec['process_group_signal'] = os.getpgid(0) == pid
         time.sleep(0.3)
         lines = open(rtasks.LOG).read().split() if os.path.exists(rtasks.LOG) else []
